@@ -345,6 +345,11 @@ pub fn run_c06(cfg: &Cfg) {
         pats.push(format!("\\k<{}>", "9".repeat(n)));
         pats.push(format!("a{{{}}}", "9".repeat(n)));
     }
+    // native-stack probes: nesting far beyond what any recursion without a depth check survives
+    for open in ["(", "(?:", "(?=", "(?<=", "(?>", "(?i:", "(?<n>", "(?(a)", "(?x:", "(?-i:", "[", "(?((", "a|("] {
+        pats.push(open.repeat(200_000));
+        pats.push(format!("{}a{}", open.repeat(100_000), ")".repeat(100_000)));
+    }
     pats.sort();
     pats.dedup();
     let opts = Opts::default();
@@ -591,6 +596,57 @@ pub fn run_c18(cfg: &Cfg) {
         }
     }
     s.count("patterns");
+    // searches that backtrack a lot, under a limit just above what one search needs: any state
+    // shared between concurrent searches (counters, stacks) shows as a spurious limit error
+    if cfg.shard < 4 {
+        let heavy = [(r"((a+)\2?)+c", "aaaaaaaaaaaaa"), (r"(a|aa)+(?=)b", "aaaaaaaaaaaaaaaaaaaa"), (r"(?:(a*)\1)+x", "aaaaaaaaaaaaaaaa"), (r"(?>a*)*(?!a)b|(a+)+\1c", "aaaaaaaaaaaaaa")];
+        for (p, t) in heavy {
+            let probe = match Regex::new(p) {
+                Ok(r) => r,
+                Err(_) => continue,
+            };
+            let single = probe.is_match(t).map_err(|e| error_name(&e));
+            let (_, need, _) = hooks::stats();
+            if need < 200 {
+                continue;
+            }
+            let mut b = RegexBuilder::new(p);
+            b.backtrack_limit((need + need / 2) as usize);
+            let re = Arc::new(b.build().unwrap());
+            let nthreads = 8;
+            let barrier = Arc::new(std::sync::Barrier::new(nthreads));
+            let mut hs = Vec::new();
+            for k in 0..nthreads {
+                let re: Arc<Regex> = if k % 2 == 0 { re.clone() } else { Arc::new((*re).clone()) };
+                let barrier = barrier.clone();
+                let t = t.to_string();
+                hs.push(std::thread::spawn(move || {
+                    barrier.wait();
+                    let mut out = Vec::new();
+                    for _ in 0..6 {
+                        out.push(re.is_match(&t).map_err(|e| error_name(&e)));
+                    }
+                    out
+                }));
+            }
+            for h in hs {
+                if let Ok(outs) = h.join() {
+                    for o in outs {
+                        s.count("concurrent_limit_cases");
+                        if o != single {
+                            s.violation(
+                                "C18",
+                                "concurrent-limit-accounting",
+                                &[("pattern", p.to_string()), ("text", t.to_string()), ("single_threaded", format!("{:?}", single)), ("concurrent", format!("{:?}", o)), ("backtracks_needed", need.to_string())],
+                            );
+                        }
+                    }
+                } else {
+                    s.violation("C18", "panic", &[("pattern", p.to_string())]);
+                }
+            }
+        }
+    }
     let txts = Arc::new(txts);
     let mut r = Rng(cfg.seed ^ 0xc18);
     for (p, re, base) in compiled {
